@@ -602,6 +602,8 @@ func (m *Manager) acquireTasks(envId uid.ID, taskDescriptors Descriptors) (err e
 				Errorf("Deployment failed %d/%d attempts. Check messages in IL to figure out why. Retrying...", attemptCount+1, MAX_ATTEMPTS_PER_DEPLOY_REQUEST)
 			time.Sleep(time.Second * SLEEP_LENGTH_BETWEEN_PER_DEPLOY_REQUESTS)
 		}
+
+		m.deployMu.Unlock()
 	}
 
 	{
@@ -619,8 +621,6 @@ func (m *Manager) acquireTasks(envId uid.ID, taskDescriptors Descriptors) (err e
 			desc.TaskRole.UpdateStatus(UNDEPLOYABLE)
 		}
 	}
-
-	m.deployMu.Unlock()
 
 	if !deploymentSuccess {
 		var deployedTaskIds []string
